@@ -155,6 +155,12 @@ def check_C19(tier):
     lines = ["alpha", "beta gamma", "", "delta"]
     simple.append(("f2p", dict(op="f2p", path="in/params.txt"), {"in/params.txt": "".join(l + "\n" for l in lines)}, lines))
     simple.append(("c2p", dict(op="c2p", command="printf 'p1\\np2\\np 3\\n'"), {}, ["p1", "p2", "p 3"]))
+    # unusual output: nothing at all, blank first / last lines, indentation
+    simple.append(("c2p", dict(op="c2p", command="true"), {}, []))
+    simple.append(("c2p", dict(op="c2p", command="echo; echo foo; echo bar"), {}, ["", "foo", "bar"]))
+    simple.append(("c2p", dict(op="c2p", command="echo '  foo'; echo 'bar  '; echo"), {}, ["  foo", "bar  ", ""]))
+    simple.append(("f2p", dict(op="f2p", path="in/p2.txt"), {"in/p2.txt": "\n  indented\nlast  \n\n"}, ["", "  indented", "last  ", ""]))
+    simple.append(("f2p", dict(op="f2p", path="in/p3.txt"), {"in/p3.txt": ""}, []))
     def two(j):
         return j, run_comp(j[1], j[2], bufsize=2)
     for (kind, case, files, want), res in pmap(two, simple, workers=8):
